@@ -1419,7 +1419,8 @@ class Config:  # pylint: disable=too-many-instance-attributes
             tree = field.include(self, formatter, filename, tree)
 
         for key, sub_schema in sub_schemas:
-            if tree.get(key):
+            # anything but a map is rejected by load_tree with a proper validation error
+            if tree.get(key) and isinstance(tree[key], dict):
                 tree[key] = self._process_includes(
                     sub_schema, tree[key], format_factory
                 )
